@@ -75,8 +75,19 @@ func (m *evalModel) faithfulSave(f *ssa.Function, depth int) bool {
 		if len(vals) != 1 {
 			return false
 		}
-		if !core.IsNilConst(vals[0]) {
+		if vals[0] == ssa.Value(inner) {
+			n++ // hands on the error of the inner write as it is
 			continue
+		}
+		if !core.IsNilConst(vals[0]) {
+			// some other error value: fine if it is known to be non-nil here, i.e. this is a failure return
+			if nn, known := m.p.FactsAt(ret).ErrNonNil(vals[0]); known && nn {
+				continue
+			}
+			if _, isCall := vals[0].(*ssa.Call); isCall {
+				continue // a freshly built error (fmt.Errorf, errors.New)
+			}
+			return false
 		}
 		n++
 		if nn, known := m.p.FactsAt(ret).ErrNonNil(inner); !known || nn {
